@@ -37,9 +37,9 @@ SigNP(m) == <<m.pos, m.reqpos, m.kwn, m.kwt, m.kwreq>>
 
 (* declared type of m at each position the call supplies *)
 AllSameOrSub(W, a, b, call) ==
-  /\ \A i \in DOMAIN call.pos : SameOrSubCls(W, a.pos[i], b.pos[i])
+  /\ \A i \in DOMAIN call.pos : TypeLE(W, a.pos[i], b.pos[i])
   /\ \A j \in DOMAIN call.kwn :
-        SameOrSubCls(W, a.kwt[KwIdx(a, call.kwn[j])], b.kwt[KwIdx(b, call.kwn[j])])
+        TypeLE(W, a.kwt[KwIdx(a, call.kwn[j])], b.kwt[KwIdx(b, call.kwn[j])])
 
 (* C02, literally: a beats b (both applicable to call) *)
 Beats(W, a, b, call) ==
